@@ -171,7 +171,7 @@ def run_part(ctx, kind):
     ctx.cov["states"] = ctx.cov.get("states", 0) + ex
     ctx.cov["transitions"] = ctx.cov.get("transitions", 0) + ctx.total.counters.get("schedule_points", 0)
     ctx.cov["traces_validated_against_impl"] = ctx.cov.get("traces_validated_against_impl", 0) + ex
-    ctx.cov["e3_subscribe_race"] = {"schedules_explored": ex, "PB": {h.name: PB_of(ctx.tier, h) for h in harnesses(kind, ctx.tier)}}
+    ctx.cov["e3_subscribe_race"] = {"schedules_explored": ex, "coarse_executions": ctx.total.counters.get("coarse_executions", 0), "PB": {h.name: PB_of(ctx.tier, h) for h in harnesses(kind, ctx.tier)}}
     ctx.assumptions = list(ctx.assumptions) + ["E3 part: preemption at lock operations and line boundaries of the subject's source files; oracle = some sequential placement of "
                                                "subscribe() on the same real class (dispose family: some prefix of the undisturbed log); no exception may escape a call"]
 
